@@ -564,8 +564,10 @@ pub fn c11(tier: &str) -> ! {
     run_families(&mut rep, c11_seq_families(tier), b.mul_f32(0.6), own);
     if t {
         run_sched(&mut rep, "reader-vs-deletion/p2d4", &c03_programs(), (2, 4), 16, false, 2, Duration::from_secs(1500), own);
+        run_sched(&mut rep, "crash-at-every-removal/p2d4", &c11_removal_programs(), (2, 4), 16, false, 2, Duration::from_secs(1500), own);
     } else {
         run_sched(&mut rep, "reader-vs-deletion/p1d3", &c03_programs(), (1, 3), 4, false, 1, Duration::from_secs(15), own);
+        run_sched(&mut rep, "crash-at-every-removal/p1d3", &c11_removal_programs(), (1, 3), 4, false, 1, Duration::from_secs(20), own);
     }
     finish_common(&mut rep);
     sched_assumptions(&mut rep);
